@@ -315,11 +315,16 @@ func (t *Thread) CallContext(def RuntimeContextDef, f func() error) (ctx Runtime
 	defer func() {
 		ctx = t.PopContext()
 		if r := recover(); r != nil {
-			t.closeStack.truncate(h) // No resources to run that, so just discard it.
 			termErr, ok := r.(ContextTerminationError)
 			if !ok {
+				// Not a context termination (e.g. threadClose, sent by
+				// coroutine.close() to a coroutine suspended inside this
+				// call): the pending to-be-closed values must still be
+				// closed, so leave them on the close stack and let the panic
+				// unwind.  Thread.end runs them all, in LIFO order.
 				panic(r)
 			}
+			t.closeStack.truncate(h) // No resources to run that, so just discard it.
 			err = termErr
 		}
 	}()
